@@ -137,7 +137,7 @@ def trafo_type(draw, force=()):
         d["vector_group"] = vg
     if draw(st.integers(0, 3)) > 0:
         d.update(draw(tap_set(["hv", "lv"])))
-        if draw(st.integers(0, 3)) == 0:
+        if draw(st.integers(0, 2)) == 0:
             d.update(draw(tap_set(["hv", "lv"], "tap2_")))
     if draw(st.integers(0, 3)) == 0:
         d["trafo_characteristic_table"] = False
@@ -254,7 +254,7 @@ def calc_for(draw, el):
 
 @st.composite
 def case(draw, tier, builtins):
-    el = draw(st.sampled_from(["line", "line", "line", "line_dc", "trafo", "trafo", "trafo", "trafo3w", "fuse", "fuse"]))
+    el = draw(st.sampled_from(["line", "line", "line", "line_dc", "trafo", "trafo", "trafo", "trafo3w", "trafo3w", "fuse", "fuse"]))
     name = draw(st.sampled_from(NAMES))
     if draw(st.integers(0, 9)) == 0:
         name = draw(st.sampled_from(sorted(builtins[el])))      # overwrites a built-in type
